@@ -177,10 +177,8 @@ namespace ratio
                         for (const auto &val_not : val_vars)
                             if (val != val_not)
                                 for (const auto &v : val_not.second)
-                                {
-                                    [[maybe_unused]] bool nc = cr.get_sat_core().new_clause({!var, !v});
-                                    assert(nc);
-                                }
+                                    if (!cr.get_sat_core().new_clause({!var, !v}))
+                                        throw unsolvable_exception(); // the problem is already inconsistent at root-level..
                     }
                     var_expr e = get_core().new_enum(get_type().get_field(name).get_type(), c_vars, c_vals);
                     exprs.insert({name, e});
